@@ -469,17 +469,23 @@ func c11M1(r *Run) {
 	case len(latches) > 1 || counter == nil:
 		r.Unk("C11.M1", "kmipclient.Client.doRountrip/retry", dr.Pos(), "retry loop shape not recognised (%d back edges, counter=%v)", len(latches), counter != nil)
 	default:
-		init, dec, guard := int64(-1), false, false
+		// counter: init c0, step on the only back edge (+s or -s), and a guard `counter <op> K` whose exit edge is the
+		// only way not to take another turn. The number of retries is then bounded by ceil(|K' - c0| / s).
+		init, step, haveInit := int64(0), int64(0), false
 		for i, e := range counter.Edges {
-			if k, ok := constIntVal(e); ok {
-				init = k
-			} else if b, ok := e.(*ssa.BinOp); ok && b.Op == token.SUB && b.X == ssa.Value(counter) && hdr.Preds[i] == latches[0] {
+			if k, ok := constIntVal(e); ok && hdr.Preds[i] != latches[0] {
+				init, haveInit = k, true
+			} else if b, ok := e.(*ssa.BinOp); ok && (b.Op == token.SUB || b.Op == token.ADD) && b.X == ssa.Value(counter) && hdr.Preds[i] == latches[0] {
 				if k, ok := constIntVal(b.Y); ok && k >= 1 {
-					dec = true
+					step = k
+					if b.Op == token.SUB {
+						step = -k
+					}
 				}
 			}
 		}
-		// the latch is reachable from the header only through the false edge of `counter <= 0` (or true edge of counter > 0)
+		guard := false
+		maxRetries := int64(-1)
 		for _, b := range dr.Blocks {
 			if len(b.Succs) != 2 || len(b.Instrs) == 0 {
 				continue
@@ -496,12 +502,26 @@ func c11M1(r *Run) {
 			if !isK {
 				continue
 			}
+			// the edge on which the loop is left, and the strict bound the counter must stay on the other side of
 			var exitSucc *ssa.BasicBlock
+			var bound int64 // continuing requires counter > bound (down-counting) or counter < bound (up-counting)
 			switch {
-			case bo.Op == token.LEQ && k == 0, bo.Op == token.LSS && k == 1:
-				exitSucc = b.Succs[0]
-			case bo.Op == token.GTR && k == 0, bo.Op == token.GEQ && k == 1:
-				exitSucc = b.Succs[1]
+			case step < 0 && bo.Op == token.LEQ:
+				exitSucc, bound = b.Succs[0], k
+			case step < 0 && bo.Op == token.LSS:
+				exitSucc, bound = b.Succs[0], k-1
+			case step < 0 && bo.Op == token.GTR:
+				exitSucc, bound = b.Succs[1], k
+			case step < 0 && bo.Op == token.GEQ:
+				exitSucc, bound = b.Succs[1], k-1
+			case step > 0 && bo.Op == token.GEQ:
+				exitSucc, bound = b.Succs[0], k
+			case step > 0 && bo.Op == token.GTR:
+				exitSucc, bound = b.Succs[0], k+1
+			case step > 0 && bo.Op == token.LSS:
+				exitSucc, bound = b.Succs[1], k
+			case step > 0 && bo.Op == token.LEQ:
+				exitSucc, bound = b.Succs[1], k+1
 			}
 			if exitSucc == nil {
 				continue
@@ -525,17 +545,29 @@ func c11M1(r *Run) {
 			walk(hdr)
 			if !seen[latches[0]] && !reachableFrom(exitSucc)[latches[0]] {
 				guard = true
+				dist := bound - init
+				if step < 0 {
+					dist = init - bound
+				}
+				abs := step
+				if abs < 0 {
+					abs = -abs
+				}
+				if dist < 0 {
+					dist = 0
+				}
+				maxRetries = (dist + abs - 1) / abs
 			}
 		}
 		switch {
-		case init < 0 || init > 3:
-			r.Bad("C11.M1", "kmipclient.Client.doRountrip/retry", counter.Pos(), "the retry counter starts at %d: a single call may transmit its request more than four times", init)
-		case !dec:
-			r.Bad("C11.M1", "kmipclient.Client.doRountrip/retry", counter.Pos(), "the retry counter is not decremented on the back edge: a call can retransmit without bound")
+		case !haveInit || step == 0:
+			r.Bad("C11.M1", "kmipclient.Client.doRountrip/retry", counter.Pos(), "the retry counter is not stepped by a constant on the back edge: a call can retransmit without bound")
 		case !guard:
-			r.Bad("C11.M1", "kmipclient.Client.doRountrip/retry", counter.Pos(), "the retry loop can continue without passing the `counter > 0` test")
+			r.Bad("C11.M1", "kmipclient.Client.doRountrip/retry", counter.Pos(), "the retry loop can continue without passing the test of the retry counter against its bound")
+		case maxRetries > 3:
+			r.Bad("C11.M1", "kmipclient.Client.doRountrip/retry", counter.Pos(), "the retry counter allows %d retries: a single call may transmit its request more than four times", maxRetries)
 		default:
-			r.OK("C11.M1", "kmipclient.Client.doRountrip/retry", counter.Pos(), "counter starts at %d, is decremented on the only back edge and tested before every retry: at most %d transmissions", init, init+1)
+			r.OK("C11.M1", "kmipclient.Client.doRountrip/retry", counter.Pos(), "counter starts at %d, steps by %+d on the only back edge and is tested against its bound before every retry: at most %d transmissions", init, step, maxRetries+1)
 		}
 	}
 	if sf := p.Func("kmipclient", "conn", "send"); sf != nil {
